@@ -8,7 +8,7 @@ PROP = "C07"
 # cycle-level refinement for the streaming handler states and the bus reset (added by the second C07 prover)
 STREAM_MODULES = ["LunaVerif.Lemmas.C07Stream", "LunaVerif.Lemmas.C07StreamCycles", "LunaVerif.Lemmas.C07StreamSeq",
                   "LunaVerif.Lemmas.C07StreamMain", "LunaVerif.Lemmas.C07StreamRun", "LunaVerif.Lemmas.C07StreamExamples",
-                  "LunaVerif.Lemmas.C07StreamContracts"]
+                  "LunaVerif.Lemmas.C07StreamContracts", "LunaVerif.Lemmas.C07Closed"]
 LEAN_MODULES = ["LunaVerif.Props.C07"] + dev_ctl.CYC_MODULES + STREAM_MODULES
 DRIVER = dev_ctl.DRIVER
 REQUIRED_THEOREMS = ["stage_follows_setup", "data_in_only_after_in_setup", "in_token_answered_only_in_data_or_status_in", "out_data_answered_only_in_status_out", "setup_always_restarts", "other_endpoint_tokens_are_stutter", "other_endpoint_transactions_are_stutter",
@@ -16,8 +16,11 @@ REQUIRED_THEOREMS = ["stage_follows_setup", "data_in_only_after_in_setup", "in_t
                      "address_strobe_only_on_gated_ack_in_set_address", "unhandled_stalls", "requests_come_from_their_stage",
                      "cyc_stage_follows_setup", "cyc_requests_follow_setup", "cycle_refines_event", "cycle_refines_event_run",
                      "sim_window", "cycle_refines_event_streams", "cycle_refines_event_all", "cycle_refines_event_streams_run",
-                     "ready_cycle_wires", "transmitter_contract", "descriptorPacket_spec", "block_handler_contract"]
-RULE = dev_ctl.RULE + dev_ctl.CYC_RULE
+                     "ready_cycle_wires", "transmitter_contract", "descriptorPacket_spec", "block_handler_contract", "dist_handler_contract",
+                     "wires_indep", "sysStep_ignores_t", "cl_send", "closed_event", "closed_loop_refines_event_run"]
+RULE_SYS = ("; next to it the serializer model of the closed loop (Model/Usb2/ControlCycSys.lean: StreamGen.serStep wired to the "
+            "handler model's transmitter wires) is compared with the real transmitter's stream outputs in every cycle")
+RULE = dev_ctl.RULE + dev_ctl.CYC_RULE + RULE_SYS
 ASSUMPTIONS = dev_ctl.ASSUMPTIONS
 PARTIAL_STREAMS = (
     "the property theorems are about the event-level model, tied to the whole USBDevice by event-by-event co-simulation; the "
@@ -26,15 +29,20 @@ PARTIAL_STREAMS = (
     "along EVERY event history (cycle_refines_event_streams_run: all handler states incl. the GET_STATUS / GET_CONFIGURATION "
     "/ GET_DESCRIPTOR data stages with their payload bytes, data PIDs and the start_position advance on the gated ACK, and "
     "bus resets) for max_packet_size = 64 and no additional request handlers; in that theorem the StreamSerializer "
-    "'transmitter' and the descriptor handler are still INPUTS of the cycle-level model, constrained in the expansion of an "
+    "'transmitter' and the descriptor handler are INPUTS of the cycle-level model, constrained in the expansion of an "
     "event by their stream contract (silent unless started; after `start` silent for lat >= 1 cycles, then the answer byte by "
     "byte, each held until tx.ready, `first`/`last` flags, ZLP = valid & last & ~first, missing descriptor = one stall "
-    "cycle: Desc.respTrace); the contract is PROVED of the two models separately (transmitter_contract from C27's "
-    "ser_run_sim for StreamSerializer(2, max_length_width=2) in any idle state; block_handler_contract from C09's "
-    "block_packet_exact with descriptorPacket_spec: the event-level descriptorPacket is C09's specResponse at in-order "
-    "offsets) and so are the wires the handler drives to them (streamers_not_started, ready_cycle_wires, window_wires), but "
-    "the closed loop of the three models is not composed formally, and for the distributed / mux descriptor handlers the "
-    "link lemma is not stated (C09 dist/mux_requests_exact have the same form); the host-side contract is that a started "
+    "cycle: Desc.respTrace); for the TRANSMITTER the contract is discharged by a formal closed loop: "
+    "closed_loop_refines_event_run proves the same refinement of sysStep = CtrlCyc.step composed with the serializer model "
+    "StreamGen.serStep (Model/Usb2/ControlCycSys.lean, co-simulated in situ against the real transmitter in every cycle) "
+    "with no assumption on the transmitter; for the DESCRIPTOR HANDLER the contract is proved of the handler models "
+    "separately (block_handler_contract from C09's block_packet_exact with descriptorPacket_spec: the event-level "
+    "descriptorPacket is C09's specResponse at in-order offsets) together with the wires the standard handler drives to it "
+    "(streamers_not_started, ready_cycle_wires, window_wires), but that closed loop is not composed formally (the answer "
+    "of the descriptor handler stays the event-level descriptorPacket); dist_handler_contract is the same link for the "
+    "distributed descriptor handler (lat <= 2: its STALL in the start cycle is in the expansion -- GapsS.stallNow --, a DATA "
+    "beat in the start cycle would not be), for the descriptor-handler mux the link lemma is not stated (C09 "
+    "mux_requests_exact has the same form); the host-side contract is that a started "
     "stream is consumed within the event's window (StreamFits) and that descriptor reads are in order; the expansion also "
     "encodes the contracts of the token detector, setup decoder and the device core's receiver strobes (proved at C04-C06, "
     "not composed formally here); not covered: configurations with additional request handlers (c.extra != []), "
